@@ -55,6 +55,19 @@ fn stub_slice_index_fail(_s: usize, _e: usize, _l: usize) -> ! {
     panic!("slice index out of range")
 }
 
+/// CBMC cannot constant-fold the state behind `Arc<Mutex<..>>`, so it walks every arm of every
+/// `match` on the receiver state. The data paths that cannot run once the state is the connection
+/// error (or a final state) are replaced by stubs that FAIL when reached.
+fn stub_recv_recv<TX>(_r: &mut Recv<TX>, _f: StreamFrame, _b: Bytes) -> Result<usize, QuicError> {
+    panic!("data path reached after the connection error")
+}
+fn stub_known_recv<TX>(_r: &mut SizeKnown<TX>, _f: StreamFrame, _b: Bytes) -> Result<usize, QuicError> {
+    panic!("data path reached after the connection error")
+}
+fn stub_determin<TX: Clone>(_r: &mut Recv<TX>, _f: &StreamFrame) -> Result<SizeKnown<TX>, QuicError> {
+    panic!("data path reached after the connection error")
+}
+
 fn any_kind() -> ErrorKind {
     let k: u8 = kani::any();
     match k % 6 {
@@ -205,6 +218,9 @@ macro_rules! poison_harness {
         #[kani::stub(std::sync::Mutex::lock, stub_mutex_lock)]
         #[kani::stub(alloc::fmt::format, stub_fmt)]
         #[kani::stub(core::slice::index::slice_index_fail, stub_slice_index_fail)]
+        #[kani::stub(Recv::recv, stub_recv_recv)]
+        #[kani::stub(SizeKnown::recv, stub_known_recv)]
+        #[kani::stub(Recv::determin_size, stub_determin)]
         fn $name() {
             poison_step::<$k>();
         }
